@@ -22,7 +22,8 @@ Sidecar syntax (one file per source file, name <file>.contract):
   @loop-body <fnpath> <kind>#<n>    whole lines directly after the opening brace line of the loop body
   @loop-end <fnpath> <kind>#<n>     whole lines directly before the closing brace line of the loop body
   @wrap-arg <fnpath> /regex(/ <count> <i>   wraps argument i of the matched call: prefix text, a line `---`, suffix text;
-                                    `$ARGn` in the text stands for the source text of argument n
+                                    `$ARGn` in the text stands for the source text of argument n; a leading `&` of the
+                                    argument stays outside the wrapper unless <i> is written `<i>&`
 
 A content line may end with `//@ <obligation-id> [C01,C02]`: that line and the following lines of the
 block (until the next tag) belong to the named obligation.
@@ -244,10 +245,10 @@ def _plan_block(src, b):
             # @wrap-arg <fn> /regex ending in the call's '('/ <count> <argidx>   content: prefix lines, '---', suffix lines
             toks = split_args(b.args)
             fnpath = toks[0]
-            m = re.match(r'\s*/(.*)/\s*(\S+)\s+(\d+)\s*$', b.args[len(fnpath):])
+            m = re.match(r'\s*/(.*)/\s*(\S+)\s+(\d+)(&?)\s*$', b.args[len(fnpath):])
             if not m:
                 raise AnchorError('bad wrap-arg syntax: %s' % b.args)
-            rx, count, argidx = m.group(1), m.group(2), int(m.group(3))
+            rx, count, argidx, keep_ref = m.group(1), m.group(2), int(m.group(3)), m.group(4) == '&'
             sep = b.lines.index('---')
             for (a, e) in src.find_stmt(fnpath, rx, count):
                 if text[e - 1] != '(':
@@ -259,7 +260,7 @@ def _plan_block(src, b):
                 (x, y) = args[argidx]
                 while text[x].isspace():
                     x += 1
-                if text[x] == '&':
+                if text[x] == '&' and not keep_ref:
                     x += 1
                 while text[y - 1].isspace():
                     y -= 1
